@@ -95,6 +95,22 @@ func (r *Runner) loadSchedules() []lockSchedule {
 	lockSched.once.Do(func() {
 		path := optVal(r.extra, "sched", "")
 		b, err := os.ReadFile(path)
+		if err != nil && r.one {
+			// re-execution of a stored case after the run's scratch directory is
+			// gone: every single-query schedule (a superset of what a run samples)
+			all := append(append([]string{}, queryKinds...), rememberKinds...)
+			for site := 1; site <= 4; site++ {
+				for _, k := range all {
+					lockSched.list = append(lockSched.list, lockSchedule{Site: site, Kinds: []string{k}})
+				}
+			}
+			for _, k := range all {
+				for _, k2 := range all {
+					lockSched.list = append(lockSched.list, lockSchedule{Reader: k, Kinds: []string{k2}})
+				}
+			}
+			return
+		}
 		if err != nil {
 			fmt.Fprintln(os.Stderr, "ERROR cannot read schedules:", err)
 			os.Exit(2)
@@ -454,6 +470,9 @@ func (r *Runner) replayLockCase(l *Line) lineResult {
 			}
 			perSite := 0
 			fmt.Sscan(optVal(r.extra, "persite", "0"), &perSite)
+			if r.one {
+				perSite = 0
+			}
 			taken := map[int]int{}
 			off := int(lineHash(l.raw) % uint64(len(scheds)))
 			for si := range scheds {
@@ -610,7 +629,7 @@ func (r *Runner) replayLockCase(l *Line) lineResult {
 			}
 		}
 	}
-	if stressEvery > 0 && len(l.Hist) >= 2 && lineHash(l.raw)%uint64(stressEvery) == 0 {
+	if stressEvery > 0 && len(l.Hist) >= 2 && (r.one || lineHash(l.raw)%uint64(stressEvery) == 0) {
 		r.lockStress(l, &res, fail)
 	}
 	res.fails = dedupFails(w.fails)
@@ -652,6 +671,9 @@ func (c *lockCase) readerSchedules(r *Runner, l *Line, scheds []lockSchedule, n,
 	st := &l.Step
 	perSite := 0
 	fmt.Sscan(optVal(r.extra, "persite", "0"), &perSite)
+	if r.one {
+		perSite = 0
+	}
 	taken := 0
 	off := int(lineHash(l.raw) % uint64(len(scheds)))
 	for si := range scheds {
